@@ -97,7 +97,7 @@ class Hostile(InstructionGenerator):
                     continue
                 v = sim.vehicles[vid]
                 here_s = sorted(sim.s_locations.get(v.geoid, ()))
-                here_b = sorted(sim.b_locations.get(v.geoid, ()))
+                here_b = sorted(set(sim.b_locations.get(v.geoid, ())) | {b.id for sid in sim.s_locations.get(v.geoid, ()) for b in sim.bases.values() if b.station_id == sid})
                 here_r = sorted(sim.r_locations.get(v.geoid, ()))
 
                 def target(pool, here):
@@ -220,6 +220,41 @@ class BenignQueue(InstructionGenerator):
         return self, tuple(out)
 
 
+class Interrupt(InstructionGenerator):
+    """every step, with probability p, one instruction for each vehicle that is in one of the given activities (a client
+    that keeps telling busy vehicles to do something else; examples/cosim_custom_dispatcher.py idles arbitrary vehicles)."""
+
+    def __init__(self, seed: int, states: Sequence[str] = ("ServicingTrip",), p: float = 1.0, kinds: Sequence[str] = ("Idle",)):
+        self.seed, self.states, self.p, self.kinds = seed, tuple(states), p, tuple(kinds)
+
+    @property
+    def name(self) -> str:
+        return "Interrupt"
+
+    def generate_instructions(self, sim, env):
+        out = []
+        t = int(sim.sim_time)
+        sids = list(sim.get_station_ids())
+        bids = list(sim.get_base_ids())
+        for v in sim.get_vehicles():
+            if type(v.vehicle_state).__name__ not in self.states:
+                continue
+            r = _rng(self.seed, "int", t, v.id)
+            if r.random() >= self.p:
+                continue
+            k = r.choice(self.kinds)
+            if k == "Idle":
+                out.append(IdleInstruction(v.id))
+            elif k == "DispatchStation" and sids:
+                sid = r.choice(sids)
+                out.append(DispatchStationInstruction(v.id, sid, r.choice(sorted(sim.stations[sid].state.keys()))))
+            elif k == "DispatchBase" and bids:
+                out.append(DispatchBaseInstruction(v.id, r.choice(bids)))
+            elif k == "Reposition":
+                out.append(RepositionInstruction(v.id, v.position.link_id))
+        return self, tuple(out)
+
+
 class Stateful(InstructionGenerator):
     """a generator in hive's immutable style whose behaviour depends on state it hands on by returning an updated copy
     of itself (as examples/cosim_custom_dispatcher.py does): every k-th call it repositions one vehicle. If a stale copy
@@ -283,6 +318,10 @@ def build_generators(ctrl: Dict[str, Any], env, seed: int):
             kw = dict(item["benign_queue"])
             kw.setdefault("seed", seed)
             out.append(BenignQueue(**kw))
+        elif isinstance(item, dict) and "interrupt" in item:
+            kw = dict(item["interrupt"])
+            kw.setdefault("seed", seed)
+            out.append(Interrupt(**kw))
         elif isinstance(item, dict) and "stateful" in item:
             out.append(Stateful(**item["stateful"]))
         elif item == "Pending":
